@@ -40,9 +40,10 @@ func genC05(seed uint64, tier string) *world.Scenario {
 		}
 		sortSteps(prog.Steps)
 		_, cid := addSensorCurve(sc, r, i, kernel.Pick(r, "hwmon", "hwmon", "file"), prog, chip)
-		f := world.FanSpec{ID: fmt.Sprintf("f%d", i), Kind: "hwmon", Curve: cid, Chip: chip, Channel: i + 1}
+		fkind := kernel.Pick(r, "hwmon", "hwmon", "hwmon", "file")
+		f := world.FanSpec{ID: fmt.Sprintf("f%d", i), Kind: fkind, Curve: cid, Chip: chip, Channel: i + 1}
 		f.Plant = defaultPlant(r)
-		f.Driver = world.DriverSpec{InitMode: kernel.Pick(r, 0, 2, 2, 5), InitPwm: r.Range(0, 255), AutoPwm: 120}
+		f.Driver = world.DriverSpec{InitMode: kernel.Pick(r, 0, 2, 2, 5), InitPwm: r.Range(0, 255), AutoPwm: 120, NoEnable: fkind != "hwmon"}
 		switch r.Intn(4) {
 		case 0:
 			f.Algo = world.AlgoSpec{Kind: "direct"}
@@ -54,7 +55,7 @@ func genC05(seed uint64, tier string) *world.Scenario {
 			f.Algo = world.AlgoSpec{Kind: "direct"}
 		}
 		// limits
-		if r.Bool(0.5) {
+		if r.Bool(0.5) && fkind == "hwmon" {
 			lo := r.Range(0, 100)
 			hi := r.Range(lo+1, 255)
 			f.MinPwm, f.MaxPwm = world.IntP(lo), world.IntP(hi)
@@ -78,13 +79,19 @@ func genC05(seed uint64, tier string) *world.Scenario {
 			f.Driver.K = kernel.Pick(r, 2, 5, 16, 51)
 			f.Driver.InitPwm = f.Driver.InitPwm / f.Driver.K * f.Driver.K
 		}
-		preseedRpmCurve(sc, f.ID, linearRpmCurve(f.Plant.StartThr, 255, f.Plant.MaxRpm))
+		if fkind == "hwmon" {
+			preseedRpmCurve(sc, f.ID, linearRpmCurve(f.Plant.StartThr, 255, f.Plant.MaxRpm))
+		}
 		sc.Fans = append(sc.Fans, f)
 		if interf {
 			ne := r.Range(1, 3)
 			for j := 0; j < ne; j++ {
 				e := world.EnvEvent{Fan: f.ID}
-				switch r.Intn(3) {
+				pick := r.Intn(3)
+				if fkind != "hwmon" {
+					pick = 1 // no control mode to interfere with
+				}
+				switch pick {
 				case 0:
 					e.Kind, e.Value = "3rd.mode", kernel.Pick(r, 0, 2, 3)
 				case 1:
